@@ -2966,11 +2966,12 @@ class sptensor:
             assert False, "Sptensor multiply requires two tensors of the same shape."
 
         if isinstance(other, ttb.sptensor):
-            idxSelf = tt_intersect_rows(self.subs, other.subs)
-            idxOther = tt_intersect_rows(other.subs, self.subs)
+            # Pair every stored entry of self with the entry of other at the same
+            # subscript (the two operands may store their nonzeros in any order)
+            common, idxOther = tt_ismember_rows(self.subs, other.subs)
             return ttb.sptensor(
-                self.subs[idxSelf],
-                self.vals[idxSelf] * other.vals[idxOther],
+                self.subs[common],
+                self.vals[common] * other.vals[idxOther[common]],
                 self.shape,
             )
         if isinstance(other, ttb.tensor):
